@@ -27,6 +27,7 @@ import (
 	"github.com/transparency-dev/witness/internal/verif/kit/refwitness"
 	"github.com/transparency-dev/witness/internal/witness"
 	"github.com/transparency-dev/witness/monitoring"
+	wprom "github.com/transparency-dev/witness/monitoring/prometheus"
 	"github.com/transparency-dev/witness/omniwitness"
 	"golang.org/x/mod/sumdb/note"
 	"google.golang.org/grpc/codes"
@@ -159,6 +160,13 @@ func EnsureMetrics(mf monitoring.MetricFactory) {
 		mf = monitoring.InertMetricFactory{}
 	}
 	monitoring.SetMetricFactory(mf)
+}
+
+// ProdMetrics installs the Prometheus-backed factory exactly as cmd/omniwitness does by default
+// (-metrics_listen defaults to :8081): counters then validate their label values, and a label that is
+// not valid UTF-8 panics inside the request that incremented it.
+func ProdMetrics() {
+	monitoring.SetMetricFactory(wprom.MetricFactory{Prefix: "omniwitness_"})
 }
 
 // Snapshot is the observable state of a witness.
